@@ -139,8 +139,25 @@ def run_job(job):
 
     def on_path(E, out):
         goal = out["goal"] if not vacuity else False
-        cex = E.prove(goal)
         pathno = E.stats["paths"]
+        try:
+            cex = E.prove(goal)
+        except engine.Unknown as ex:
+            # the solver could not decide this path's query: before giving up, run the path's witness on the real code -- a concrete,
+            # replayed disagreement with the executable reference is a violation no matter what the solver could not finish
+            m = E.model()
+            if m is not None:
+                case = evaltree(m, out["case"])
+                case["h"] = job["h"]; case["module"] = job["module"]
+                v = rc.run(case)
+                if "error" not in v and not v["ok"]:
+                    kn = [k for k in (mod.kf_match(case) if hasattr(mod, "kf_match") else []) if k in kf_active]
+                    res["violations"].append(dict(case=case, got=v["got"], exp=v["exp"], how="path-witness-replay (solver query undecided)",
+                                                  path=E.path_descr(), known=kn[0] if kn else None))
+                    if not kn:
+                        return {"stop": True}
+            res["inconclusive"].append(dict(reason="unknown", detail=str(ex)[:400], path=E.path_descr()))
+            return {"stop": True}
         if vacuity:
             if cex is not None:
                 res["reach"] += 1
